@@ -36,8 +36,9 @@ def ensure_scratch():
 def run_demo(demo_name, feats):
     cmd = f'timeout 600 cargo test --offline {feats} --test {demo_name} -- --test-threads 1 2>&1 | tail -40'
     rc, out = sh(cmd, cwd=SCRATCH, timeout=900)
-    passed = re.search(r'test result: ok\.', out) is not None and 'FAILED' not in out and 'error' not in out.split('test result')[0][-300:]
-    failed = 'FAILED' in out or 'panicked' in out or 'test result: FAILED' in out or 'timed out' in out
+    # a demo may provoke panics on purpose: only the harness' own verdict lines count
+    failed = 'test result: FAILED' in out or 'error: test failed' in out or 'timed out' in out or 'could not compile' in out
+    passed = re.search(r'test result: ok\.', out) is not None and not failed
     return passed, failed, out[-1500:]
 
 
